@@ -17,7 +17,7 @@ from engine.cfg import call_name, cfg_of
 from engine.errors import AnalysisError
 from engine.flow import Resident
 from engine.repo import walk_no_nested
-from engine.util import calls_in, dotted, local_assignments, unparse
+from engine.util import calls_in, dotted, local_assignments, unparse, xsrc
 
 ID = 'C11'
 MK = 'sdc11073.multikey.MultiKeyLookup'
@@ -165,23 +165,23 @@ def run(ctx):  # noqa: C901, PLR0912, PLR0915
             ctx.ob('C11.R3', f'{m} delegates', any(x and x.startswith('remove_object') for x in names),
                    f'{m} delegates to another removal method', fi=fi)
     ri = mk.methods['_rm_indices']
-    src = unparse(ri.node)
+    src = xsrc(ri)
     ok = 'self._object_ids' in src and 'rm_key' in src and any(isinstance(n, ast.Delete) for n in walk_no_nested(ri.node))
     ctx.ob('C11.R3', '_rm_indices uses back-references', ok,
            '_rm_indices removes exactly the (index, key) pairs recorded in _object_ids[id(obj)] and drops the record',
            fi=ri)
-    mi_src = unparse(mi.node)
+    mi_src = xsrc(mi)
     ctx.ob('C11.R3', '_mk_indices records back-references', 'self._object_ids[id(obj)]' in mi_src and '_ObjRef' in mi_src,
            '_mk_indices records an _ObjRef for every key it created', fi=mi)
     cl = mk.methods['clear']
-    src = unparse(cl.node)
+    src = xsrc(cl)
     ok = 'self._objects.clear()' in src and 'self._object_ids.clear()' in src and \
         any(isinstance(n, ast.For) and '_idx_defs' in unparse(n.iter) and '.clear()' in unparse(n)
             for n in walk_no_nested(cl.node))
     ctx.ob('C11.R3', 'clear', ok, 'clear empties the object set, the back-references and every index', fi=cl)
     # add_index indexes the objects that are already in the table
     ai = mk.methods['add_index']
-    src = unparse(ai.node)
+    src = xsrc(ai)
     ctx.ob('C11.R3', 'add_index back-fills', 'for obj in self._objects' in src and 'mk_keys(obj)' in src and
            '_object_ids' in src, 'add_index indexes existing objects and records the back-references', fi=ai)
 
